@@ -25,6 +25,125 @@ def cfg():
     return c
 
 
+# ------------------------------------------------------------------------------------------
+# an MH tool removes messages behind the server's back (rmm): the "folder shrank" recovery
+def shrink_cases(tier):
+    import itertools
+
+    ns = (3,) if tier == "quick" else (3, 4)
+    for n in ns:
+        for k in range(1, n + 1):
+            for gone in itertools.combinations(range(1, n + 1), k):
+                for observer in ("selected", "fresh", "status"):
+                    for follow in ("append", "deliver", "copy-self", "none"):
+                        yield (n, list(gone), observer, follow)
+
+
+def work_shrink(unit):
+    """Ledger-only oracle (the reference store is not consulted: the server may renumber the survivors): within one
+    UIDVALIDITY no UID ever names two different messages, UIDs ascend with sequence number, every UIDNEXT told exceeds
+    every UID seen and never decreases."""
+    import os
+    import re
+
+    from .. import msgs, templates
+    from ..respparse import fetch_items
+    from ..runner import Failure
+    from ..sessions import imap_literal
+    from ..world import World
+
+    fails, n_eval = [], 0
+    SUBJ = "BODY.PEEK[HEADER.FIELDS (SUBJECT)]"
+    for n, gone, observer, follow in unit:
+        from .common import cfg_basic
+
+        c = cfg_basic(PROP, n, others=("a",), name=f"c02-shrink-{n}")
+        w = World(c["template"])
+        rp = {"driver": "c02-shrink", "n": n, "gone": gone, "observer": observer, "follow": follow}
+        ledger, told = {}, []
+        tr = []
+
+        def fail(rule, exp=None, obs=None):
+            fails.append(Failure(PROP, rule, {"gone_top": n in gone, "observer": observer, "follow": follow}, rp, exp, obs, list(tr[-12:])))
+
+        def look(s, tag):
+            r, resps = s.do("NOOP")
+            for cmd in ("SELECT INBOX", f"UID FETCH 1:* (UID {SUBJ})"):
+                r, resps = s.do(cmd)
+                tr.append(f"{tag} {cmd} -> {r.typ if r else None}")
+                vv = None
+                last_uid = 0
+                for x in resps:
+                    if x.kind == "untagged" and x.typ == "OK" and x.code:
+                        k = str(x.code[0]).upper()
+                        if k == "UIDVALIDITY":
+                            vv = int(x.code[1])
+                            look.vv = vv
+                        if k == "UIDNEXT":
+                            told.append((look.vv, int(x.code[1])))
+                    if x.kind == "untagged" and x.typ == "FETCH" and not x.errors:
+                        try:
+                            it = fetch_items(x)
+                        except Exception:
+                            continue
+                        if "UID" in it:
+                            u = int(it["UID"])
+                            cid = msgs.cid_of(bytes(it.get("BODY[HEADER.FIELDS (SUBJECT)]") or b""))
+                            if u <= last_uid:
+                                fail("C02.uids-not-ascending", None, u)
+                            last_uid = u
+                            key = (look.vv, u)
+                            if cid and key in ledger and ledger[key] != cid:
+                                fail("C02.uid-reused", {"uid": u, "cid": ledger[key]}, {"uid": u, "cid": cid})
+                            if cid:
+                                ledger[key] = cid
+
+        look.vv = None
+        try:
+            w.start()
+            a = w.connect("A")
+            look(a, "A")
+            folder = w.folder_path("inbox")
+            for k in gone:
+                os.remove(os.path.join(folder, str(k)))
+            w.touch("inbox")
+            tr.append(f"ENV: rmm {gone}")
+            s = a
+            if observer == "fresh":
+                s = w.connect("B")
+            if observer == "status":
+                r, resps = a.do("STATUS INBOX (UIDNEXT MESSAGES)")
+                for x in resps:
+                    if x.kind == "untagged" and x.typ == "STATUS" and len(x.data) >= 2:
+                        items = [str(v) for v in (x.data[1] or [])]
+                        if "UIDNEXT" in items:
+                            told.append((look.vv, int(items[items.index("UIDNEXT") + 1])))
+            look(s, "S")
+            if follow == "append":
+                s.do(f"APPEND INBOX () {msgs.idate(50)} ".encode() + imap_literal(msgs.make("new1")))
+            elif follow == "deliver":
+                w.deliver("inbox", msgs.make("new1", crlf=False))
+            elif follow == "copy-self":
+                s.do("COPY 1 INBOX")
+            look(s, "S")
+            o = w.connect("O")
+            look(o, "O")
+            n_eval += 1
+            by_vv = {}
+            for vv, un in told:
+                if vv is None:
+                    continue
+                if vv in by_vv and un < by_vv[vv]:
+                    fail("C02.uidnext-decreased", by_vv[vv], un)
+                by_vv[vv] = max(by_vv.get(vv, 0), un)
+            for (vv, u) in ledger:
+                if vv in by_vv and u >= by_vv[vv]:
+                    fail("C02.uidnext-not-above-assigned", f"> {u}", by_vv[vv])
+        finally:
+            w.close()
+    return fails, n_eval
+
+
 def alphabet(tier):
     A = "A"
     ev = [
@@ -92,6 +211,20 @@ def run(tier, seed, jobs):
         res.coverage["traces_validated_against_impl"] += r["executions"]
         per.append({"scenario": sc["name"], "executions": r["executions"], "bound": r["bound_completed"], "outcomes": r["distinct_outcomes"], "cap": r["cap"]})
     res.coverage["schedule_part"] = per
+    # an MH tool removing messages behind the server's back
+    from ..runner import pmap, seeded_order
+
+    sc = list(shrink_cases(tier))
+    nsh = 0
+    for f, k in pmap(work_shrink, seeded_order([sc[i : i + 6] for i in range(0, len(sc), 6)], seed), jobs):
+        res.failures.extend(f)
+        nsh += k
+    res.coverage["shrink_cases"] = nsh
+    res.coverage["states"] += nsh
+    res.coverage["transitions"] += nsh
+    res.coverage["traces_validated_against_impl"] += nsh
+    res.assumptions.append("shrink part: every non-empty subset of INBOX(3) (thorough also 4) removed from the MH folder by an external tool, seen by the selected session / "
+                           "a fresh session / STATUS, followed by APPEND / delivery / COPY to self / nothing; ledger-only oracle (the server may renumber the survivors)")
     res.assumptions.append("schedule part: one delivery into the destination at any scheduling point of COPY 1:2 / MOVE 1 (<=1, thorough <=2 deviations): "
                            "every COPYUID destination UID holds the source's content in the final store")
     return res
@@ -99,6 +232,8 @@ def run(tier, seed, jobs):
 
 def replay(rec):
     rp = rec["replay"]
+    if rp.get("driver") == "c02-shrink":
+        return work_shrink([(rp["n"], rp["gone"], rp["observer"], rp["follow"])])[0]
     if rp.get("driver") == "s":
         from ..explore import sched
 
